@@ -28,8 +28,12 @@ def gen_cases(g, rng, per_type, maxlen):
             for _i in range(rng.randrange(2, maxlen)):
                 x = rng.random()
                 n = rng.choice(sub) if rng.random() < 0.92 else rng.choice(names_all)
-                if x < 0.30:
+                if x < 0.24:
                     ops.append(['a', n])
+                elif x < 0.30:
+                    # the EXPLICIT API on both twins, in the middle of the shortcut history: replace the first child of that name (or add), remove it
+                    ops.append([rng.choice(['R', 'R', 'D']), n])
+                    ops.append(['g', n])
                 elif x < 0.50:
                     ops.append(['x', n])
                 elif x < 0.60:
